@@ -18,6 +18,21 @@ M = [
  ("iter-closed-interval", "hta/common/trace.py", 'if step[0] <= ts < step[0] + step[1]:', 'if step[0] <= ts <= step[0] + step[1]:', ["C12"]),
  ("trim-le", "hta/common/trace.py", 'else cpu_kernels[cpu_kernels["ts"] < last_profiler_start]', 'else cpu_kernels[cpu_kernels["ts"] <= last_profiler_start]', ["C12"]),
  ("overlap-running-ge", "hta/analyzers/communication_analysis.py", 'status_df["running"].eq(3)', 'status_df["running"].ge(2)', ["C07"]),
+ ("queue-tie-key", "hta/analyzers/trace_counters.py", '.sort_values(by=["ts", "queue"], ascending=[True, False])', '.sort_values(by="ts")', ["C14"]),
+ ("bw-zero-dur", "hta/analyzers/trace_counters.py", 'memcpy_kernels.loc[memcpy_kernels.dur == 0, ["dur"]] = 1', 'pass', ["C14"]),
+ ("counter-ts-shift", "hta/common/trace.py", 'events_df["ts"] = events_df["ts"] + self.min_ts', 'events_df["ts"] = events_df["ts"]', ["C14"]),
+ ("launch-delay-noclip", "hta/analyzers/cuda_kernel_analysis.py", 'joined_df["launch_delay"] = joined_df["launch_delay"].clip(lower=0)', 'pass', ["C15"]),
+ ("launch-delay-from-start", "hta/analyzers/cuda_kernel_analysis.py", 'joined_df["ts_y"] - joined_df["ts_x"] - joined_df["dur_x"]', 'joined_df["ts_y"] - joined_df["ts_x"]', ["C15"]),
+ ("idle-join-sentinel", "hta/analyzers/breakdown_analysis.py", 'trace_df.loc[trace_df["index"] > 0, ["ts", "index"]],', 'trace_df[["ts", "index"]],', ["C06"]),
+ ("idle-hostwait-ge", "hta/analyzers/breakdown_analysis.py", 'is_host_wait = gpu_kernels_s["ts_runtime"] > gpu_kernels_s["prev_end_ts"]', 'is_host_wait = gpu_kernels_s["ts_runtime"] >= gpu_kernels_s["prev_end_ts"]', ["C06"]),
+ ("idle-thr-le", "hta/analyzers/breakdown_analysis.py", 'gpu_kernels_s["idle_interval"] < consecutive_kernel_delay', 'gpu_kernels_s["idle_interval"] <= consecutive_kernel_delay', ["C06"]),
+ ("cs-open-order", "hta/common/trace_call_stack.py", '            return x[_I_DUR] > y[_I_DUR]\n', '            return x[_I_DUR] < y[_I_DUR]\n', ["C03"]),
+ ("oldcs-start-order", "hta/common/call_stack.py", 'result = 1 if x.dur < y.dur else -1', 'result = -1 if x.dur < y.dur else 1', ["C03"]),
+ ("height-childless", "hta/common/trace_call_stack.py", '                    h = 1\n                    for c in node.children:', '                    h = 0\n                    for c in node.children:', ["C13"]),
+ ("kernel-last-end", "hta/common/trace_call_stack.py", '                end = max(end, c_info.last_end)', '                end = max(end, c_info.first_start)', ["C13"]),
+ ("bwd-guard", "hta/common/trace_call_stack.py", '                & self.full_df["end"].le(end)\n', '', ["C13"]),
+ ("seq-min-depth", "hta/analyzers/cuda_kernel_analysis.py", 'min_depth = candidate_nodes["depth"].min()', 'min_depth = candidate_nodes["depth"].max()', ["C16"]),
+ ("seq-minlen", "hta/analyzers/cuda_kernel_analysis.py", '& candidate_nodes["num_kernels"].ge(min_pattern_len)', '& candidate_nodes["num_kernels"].gt(min_pattern_len)', ["C16"]),
 ]
 
 
